@@ -222,6 +222,22 @@ func init() {
 					c09Emit(c, c09Case{A: x, B: y, Want: "false", Why: "identity/different id"})
 					c09Emit(c, c09Case{A: y, B: x, Want: "false", Why: "identity/different id"})
 				}
+				if i%5 == 0 {
+					// ids that consist of a fragment only (the parts of one document), and next to the empty id
+					a, b, e := cloneTree(x).(T), cloneTree(x).(T), cloneTree(x).(T)
+					a["f"].(T)["ID"] = T{"s": "#first-note"}
+					b["f"].(T)["ID"] = T{"s": "#second-note"}
+					delete(e["f"].(T), "ID")
+					for _, pr := range [][2]T{{a, b}, {b, a}, {a, e}, {e, a}} {
+						c09Emit(c, c09Case{A: pr[0], B: pr[1], Want: "false", Why: "identity/fragment-only ids"})
+					}
+					// a text whose language reference and words are cut differently ("en"+"glish…" / "eng"+"lish…")
+					n1, n2 := cloneTree(x).(T), cloneTree(x).(T)
+					n1["f"].(T)["Name"] = T{"nlv": []interface{}{[]interface{}{"en", "glish breakfast"}, []interface{}{"de", "utsch"}}}
+					n2["f"].(T)["Name"] = T{"nlv": []interface{}{[]interface{}{"eng", "lish breakfast"}, []interface{}{"de", "utsch"}}}
+					c09Emit(c, c09Case{A: n1, B: n2, Want: "false", Why: "field/reference and text cut differently"})
+					c09Emit(c, c09Case{A: n2, B: n1, Want: "false", Why: "field/reference and text cut differently"})
+				}
 				y := cloneTree(x).(T)
 				y["f"].(T)["ID"] = T{"s": strings.Replace(id["s"].(string), "example.com", "other.example.org", 1)}
 				c09Emit(c, c09Case{A: x, B: y, Want: "false", Why: "identity/different host"})
